@@ -360,6 +360,12 @@ def check_case(acc, case):
     payload = {'kind': 'case', 'case': case}
     in_range_rgb = mode != 'rgb' or all(
         0 <= regs[r] <= 100 for r in ('red', 'green', 'blue'))
+    if case.get('switch_to') == 'rgb' and mode != 'rgb':
+        # a colour outside the documented ranges has no rgb expression
+        # either: the switch produces percentages outside 0..100
+        top = 65535 if mode == 'raw' else 100
+        in_range_rgb = all(0 <= regs[r] <= top
+                           for r in ('saturation', 'brightness'))
     if result.compiled and result.aborted and not in_range_rgb:
         # rgb percentages outside 0..100 are invalid input by the manual;
         # nothing out of range was transmitted, which is all C07 asks.
